@@ -111,10 +111,24 @@ def run_cache(exe, args, data, child_args, timeout, stages=None):
                         pass
                 th = threading.Thread(target=feed)
                 th.start()
+                import signal as _sig
+                killed = []
+
+                def _kill():
+                    killed.append(1)
+                    try:
+                        os.killpg(p.pid, _sig.SIGKILL)
+                    except Exception:
+                        p.kill()
+                wd = threading.Timer(timeout, _kill)
+                wd.start()
                 out = p.stdout.read()
                 err = p.stderr.read()
-                p.wait(timeout=timeout)
+                p.wait()
+                wd.cancel()
                 th.join()
+                if killed:
+                    raise subprocess.TimeoutExpired(exe, timeout)
             else:
                 out, err = p.communicate(data, timeout=timeout)
             status = p.returncode
@@ -178,6 +192,19 @@ def main(argv):
     for mode in ("eager+f3", "stdio+f3", "readall+f3"):
         jobs.append((["-k", "1"], "1", b"\t", [b"k1\tu\t\tw", b"k1\tv\t\tw", b"k2\tu\tC\tw", b"k1\tz\tD\tw", b"k3\tu\t\tw", b"k2\tq\t\tw", b"k3\tu\tE\tw"], mode, 0))
         jobs.append((["-k", "1"], "1", b"\t", [b"e\t1\t\tz"] * 4 + [b"f\t1\tF\tz", b"e\t2\tG\tz"], mode, 0))
+    # whole-line keys whose 64-bit hashes (MurmurHash64A, seed 0, as cache folds a single piece) agree only in the
+    # low or only in the high 32 bits: both lines of a pair are distinct keys and must reach the child
+    pairs = [(b"7085", b"153120"), (b"26949", b"148467"), (b"99261", b"123352")]
+    try:
+        found = murmur_partial_collisions(count=160000 if c.tier == "quick" else 600000, seed=0, prefix=b"", want=3)
+        pairs += found["low32"] + found["high32"]
+    except Exception as e:
+        c.broken.append("murmur_partial_collisions failed: %s" % e)
+    good = [(a, b) for a, b in pairs if murmur64a_py(a, 0) != murmur64a_py(b, 0)]
+    c.cov["distribution"]["partial-hash-collision pairs"] = len(good)
+    for a, b in good:
+        jobs.append(([], None, None, [a, b, a, b], "eager", 0))
+    jobs.append(([], None, None, [x for ab in good for x in ab], "readall", 0))
     # one first-occurrence line longer than both pipes with the byte-copying child (the enqueue-after-write deadlock)
     jobs.append(([], None, None, [b"a", b"L" * 300000, b"a"], "echo", 0))
     # collector catching up with the feeder exactly at a multiple of the queue's 1023-entry page while more
